@@ -160,8 +160,10 @@ func (ctx *ValidationContext) FragmentSpreads(node *ast.SelectionSet) []*ast.Fra
 		var set *ast.SelectionSet
 		// pop
 		set, setsToVisit = setsToVisit[len(setsToVisit)-1], setsToVisit[:len(setsToVisit)-1]
+		verifCount(VerifSiteFragmentSpreadsStep)
 		if set.Selections != nil {
 			for _, selection := range set.Selections {
+				verifCount(VerifSiteFragmentSpreadsStep)
 				switch selection := selection.(type) {
 				case *ast.FragmentSpread:
 					spreads = append(spreads, selection)
@@ -198,8 +200,10 @@ func (ctx *ValidationContext) RecursivelyReferencedFragments(operation *ast.Oper
 		var node *ast.SelectionSet
 
 		node, nodesToVisit = nodesToVisit[len(nodesToVisit)-1], nodesToVisit[:len(nodesToVisit)-1]
+		verifCount(VerifSiteRRFPop)
 		spreads := ctx.FragmentSpreads(node)
 		for _, spread := range spreads {
+			verifCount(VerifSiteRRFSpread)
 			fragName := ""
 			if spread.Name != nil {
 				fragName = spread.Name.Value
@@ -223,6 +227,7 @@ func (ctx *ValidationContext) VariableUsages(node HasSelectionSet) []*VariableUs
 	if usages, ok := ctx.variableUsages[node]; ok && usages != nil {
 		return usages
 	}
+	verifCount(VerifSiteVariableUsagesCompute)
 	usages := []*VariableUsage{}
 	typeInfo := NewTypeInfo(&TypeInfoConfig{
 		Schema: ctx.schema,
